@@ -92,11 +92,14 @@ inline std::unique_ptr<ISpline> makeSplineHist(Ctx &c, Rng &r, const Problem &p,
             }
             else if (k == 3)
             {
-                // durations moved by a tiny amount (late iterations of an optimisation)
-                q2.T = prev.T;
-                double eps = std::pow(10.0, -(double)r.range(7, 12));
-                for (auto &t : q2.T)
-                    t *= 1.0 + eps * r.uni(-1, 1);
+                // durations (or waypoints) moved by a tiny amount (late iterations of an optimisation, FD probes)
+                q2 = prev;
+                double eps = std::pow(10.0, -(double)r.range(6, 12));
+                if (r.coin())
+                    for (auto &t : q2.T)
+                        t *= 1.0 + eps * r.uni(-1, 1);
+                else
+                    q2.P(r.range(0, q2.N), r.range(0, q2.dim - 1)) += eps * (r.coin() ? 1 : -1);
             }
             else if (k == 1)
             {
